@@ -55,5 +55,28 @@ func boundedStrictOmitempty() (ok bool) {
 		fmt.Printf("bounded: CASE %s/empty-not-zero-json: a flat struct with empty, non-nil omitempty fields: embedding-aware output %s, the plain marshaller's %s\n", A, j, pj)
 		ok = false
 	}
+	// an embedded interface holding a struct BY VALUE (C15's family: "embedded interface holding a struct
+	// or nil"): what was serialised must be reproduced by populating a fresh struct
+	{
+		src := &hWithIface{HIface: HInner2{D: pu(9)}, X: pi(3)}
+		b, err := SerializeStructToCBOR(em, src)
+		if err == nil {
+			var m map[int]interface{}
+			_ = dm.Unmarshal(b, &m)
+			dst := &hWithIface{HIface: HInner2{}}
+			perr := func() (e error) {
+				defer func() {
+					if r := recover(); r != nil {
+						e = fmt.Errorf("panic: %v", r)
+					}
+				}()
+				return PopulateStructFromCBOR(dm, b, dst)
+			}()
+			if perr != nil || !reflect.DeepEqual(src, dst) {
+				fmt.Printf("bounded: CASE %s/iface-holding-struct-by-value: a struct whose embedded interface holds a struct by value serialises to %d entries, but populating a struct of the same shape does not reproduce it: %v\n", A, len(m), perr)
+				ok = false
+			}
+		}
+	}
 	return ok
 }
